@@ -13,7 +13,7 @@ ASSUMPTIONS = ["reference vf/ref/ec.py + hashlib", "BSM signing is modelled as d
 NSHARDS = {"quick": 32, "thorough": 64}
 BUDGET_S = {"quick": 200, "thorough": 1800}
 MIN_HITS = {
-    'quick': {"sign": 256, "prefix_nonzero": 202, "len>=253": 82, "len>=65536": 35, "neg": 9732, "uncompressed": 122},
+    'quick': {"sign": 256, "prefix_nonzero": 203, "len>=253": 82, "len>=65536": 35, "neg": 9729, "uncompressed": 122},
     'thorough': {"sign": 57753, "prefix_nonzero": 38383, "len>=253": 20520, "len>=65536": 244, "neg": 2216073, "uncompressed": 23074},
 }
 EDGE = [1, 2, 3, (ec.N - 1) // 2, (ec.N + 1) // 2, ec.N - 2, ec.N - 1]
